@@ -6,7 +6,7 @@
    ValueError / KeyError) and the model's validity test ([valid] = StyleProperty.validate) are parameters; Model/ImscCases.v
    instantiates them with the parsers of Model/ImscWrite.v.
    ContentElement.set_style raises ValueError on an invalid value: that exception is caught (and logged) around specified
-   styling, initial values and <set>, but not around referential and nested styling, where it aborts the read (None below). *)
+   styling, initial values, <set>, referential and nested styling: the value is skipped. *)
 From TT Require Import Base.Prelude Base.ImscXml.
 From Coq Require Import QArith.
 Local Open Scope Z_scope.
@@ -38,19 +38,23 @@ Section Styling.
   Variable to_model : qname -> text -> option (Z * sv).
   Variable valid : Z -> sv -> bool.
 
-  (* the styles dict of a <style> element: every style attribute that parses, unvalidated *)
+  (* the styles dict of a <style> element: every style attribute that parses to a value the model accepts (a value that is rejected
+     raises ValueError, which is logged) *)
   Fixpoint collect (attrs : list (qname * text)) (d : sdict) : sdict :=
     match attrs with
     | [] => d
-    | (q, v) :: a' => collect a' (match to_model q v with Some (p, x) => dict_set d p x | None => d end)
+    | (q, v) :: a' => collect a' (match to_model q v with
+                                  | Some (p, x) => if valid p x then dict_set d p x else d
+                                  | None => d
+                                  end)
     end.
 
-  (* for each (p, x) of src: if not has_style(p): set_style(p, x) — None when set_style raises ValueError *)
-  Fixpoint merge_absent (src : sdict) (d : sdict) : option sdict :=
+  (* for each (p, x) of src: if not has_style(p): set_style(p, x) — a ValueError of set_style is logged and the value skipped *)
+  Fixpoint merge_absent (src : sdict) (d : sdict) : sdict :=
     match src with
-    | [] => Some d
+    | [] => d
     | (p, x) :: s' => if dict_has d p then merge_absent s' d
-                      else if valid p x then merge_absent s' (d ++ [(p, x)]) else None
+                      else if valid p x then merge_absent s' (d ++ [(p, x)]) else merge_absent s' d
     end.
 
   (* process_specified_styling / initial values: parse and set, errors (also of validation) logged and skipped *)
@@ -131,16 +135,13 @@ Section Styling.
   Definition flatten (t : list sty) : list sty :=
     fold_left (fun acc s => merge_chained (S (2 * total_refs acc + length acc)) acc (st_id s)) t t.
 
-  (* process_referential_styling: references in reverse order, set-if-absent; None = ValueError *)
-  Fixpoint referential (t : list sty) (refs_rev : list text) (d : sdict) : option sdict :=
+  (* process_referential_styling: references in reverse order, set-if-absent *)
+  Fixpoint referential (t : list sty) (refs_rev : list text) (d : sdict) : sdict :=
     match refs_rev with
-    | [] => Some d
+    | [] => d
     | r :: rest => match tbl_get t r with
                    | None => referential t rest d                            (* "non existant style id" *)
-                   | Some s => match merge_absent (st_styles s) d with
-                               | Some d' => referential t rest d'
-                               | None => None
-                               end
+                   | Some s => referential t rest (merge_absent (st_styles s) d)
                    end
     end.
 End Styling.
